@@ -52,5 +52,18 @@ TEXT = {
    text="Lean theorems over the model of curl.go/transform.go: transformGeneric never indexes out of range and equals 81 closed-form rounds; on valid encodings each of the 64 lanes undergoes exactly Curl-P-81 (truth table, index walk 364i mod 729) and validity is invariant; "
         "for EVERY history of Absorb/Squeeze/Reset calls meeting the documented preconditions the observations equal those of 64 independent specification sponges (induction over the history), lane j's outputs depend on lane j's inputs only, rejected calls carry no state change, Squeeze never panics.",
    note="Trusted: Lean kernel; extractor+harness. Clone is the identity on immutable model values (aliasing is checked by the correspondence run, which interleaves a clone with its original). Histories that violate the documented preconditions (absorb after squeeze, lanes shorter than tritsCount) panic in Go and are outside the quantifier."),
+ "C09": dict(ref="DESIGN.md §5 C09",
+   technique="Lean 4 proof of the repository's own logic (seed = PBKDF2 of joined words / 'mnemonic'++NFKD(pass) after validation; byte-level strings.Fields lemmas by induction) with NFKD and PBKDF2 as parameters; regenerated call-site facts; differential correspondence with a Lean PBKDF2",
+   text="partial by construction: NFKD and PBKDF2 are external. Proved: MnemonicToSeed returns PBKDF2(join \" \" words, \"mnemonic\" ++ nfkd(pass), 2048, 64) exactly when MnemonicToEntropy accepts, else that error and no seed; "
+        "fields(join ws) = ws for clean words; fields is invariant under replacing any white-space run by any other and under leading/trailing white space (byte-level model of unicode.IsSpace encodings, incl. truncated encodings); "
+        "parse(print(parse s)) = parse s under the stated NFKD hypothesis; equal NFKD forms parse equally. The tie regenerates the pbkdf2.Key call arguments (iterations, key length, salt expression, hash). "
+        "Correspondence compares 64-byte seeds against a Lean PBKDF2-HMAC-SHA512 fed the x/text NFKD form.",
+   note="Trusted: Lean kernel; extractor+harness; golang.org/x/text NFKD (one hypothesis, exercised on generated strings) and x/crypto PBKDF2 are not verified; the Lean PBKDF2/SHA-512 are oracles validated by agreement."),
+ "C20": dict(ref="DESIGN.md §5 C06/C20",
+   technique="Lean 4 proof: deep-embedded interpreter of the extracted amd64 instruction list, symbolic execution per basic block, inner-loop invariant and induction over 81 rounds; the portable Go loop by its own invariant; both equal one closed form. The .s file is re-parsed on every run and compared with the proved program",
+   text="Lean theorems for ALL contents of the four 729-word buffers: the instruction list of transform_amd64.s runs exactly 664935 steps without fault (every access in-buffer and aligned, no register read before written) and leaves roundsW 81 in the to-buffers, roundsW 80 in the from-buffers; "
+        "transformGeneric (portable Go, bounds-checked model) returns the same four buffers; per bit lane and for arbitrary words this is 81 rounds of the bit-pair round function, which on valid encodings is the Curl-P truth table. "
+        "Tie: Gen.CurlAsm.program (parsed from the .s on every run) = the proved program; build-tag selection and the portable wrapper are regenerated facts.",
+   note="Trusted: Lean kernel; the machine semantics in AsmSem.lean (tagged pointers, conservative flags) — validated by running the interpreter and the real assembly on the same states in every check; the assembler, linker and CPU; extractor+harness."),
 }
 PENDING = {}
